@@ -1036,7 +1036,17 @@ namespace {
                     db.first ? verif::hex( db.second.data(), 16 ) : std::string( "-" ) );
         }
 
+        // the assertions of the selected property come first: a deviation that is another property's business ends the case
         void after_step()
+        {
+            if ( mask & P35 )
+                check_status();
+            probe( 0, 0, false );
+            if ( !( mask & P35 ) )
+                check_status();
+        }
+
+        void check_status()
         {
             const auto expected = st != DONE ? device_pairing_status::no_key : auth ? device_pairing_status::authenticated_key : device_pairing_status::unauthenticated_key;
             const auto got      = sm.status();
@@ -1047,7 +1057,6 @@ namespace {
                 : lesc      ? ( nc_asked ? ( user_yes ? ", the user confirmed the comparison value" : ", the user did not confirm" ) : ", the user was not asked, one commitment round with z = 0" )
                             : verif::cat( ", temporary key used: ", method_names[ tkp_kind ] ),
                 ")" );
-            probe( 0, 0, false );
         }
 
         // ---------------------------------------------------------------------------------------- the central
